@@ -39,6 +39,11 @@ def rules(chk, db):
 def run(chk, db):
     facts.gate(chk, db, ['nop/base/', 'nop/types/result.h', 'nop/types/optional.h', 'nop/types/variant.h', 'nop/types/detail/variant.h'])
     rules(chk, db)
+    # a decoded handle reference - the empty one included - is resolved through the reader and stored: an early return would
+    # leave the previous handle in a reused destination
+    from . import c15
+    chk.rule('HR', 'Handle decoder: every decoded reference is resolved through GetHandle and the result is stored into the destination', minimum=1)
+    c15.handle_read_errors(chk, db, 'HR')
     chk.explanation = (
         'For every ReadPayload instance the symbolic successful paths are checked for a reset or complete overwrite of the destination '
         '(kind-specific: clear(), resize+raw read of exactly the resized range, element-by-element coverage with the exact count, '
